@@ -23,7 +23,7 @@ ASSUMPTIONS = ["reference Coulomb integrals from vmon/ref/gto.py after self-test
 
 
 def gen_cases(tier, seed):
-    n = 80 if tier == "quick" else 3000
+    n = 200 if tier == "quick" else 3000
     cases = []
     for i in range(n):
         rng = bases.rng_for("C14", seed, tier, i)
